@@ -60,7 +60,7 @@ def export_job(p: Dict[str, Any]) -> Dict[str, Any]:
             kw.update(overrides)
             model = to_onnx(fn_t, [jax.ShapeDtypeStruct(sh, dt) for sh, dt in meta_t], **kw)
         else:
-            model = corpus.export(tp, fn, **overrides)
+            model = corpus.export(tp, fn, dtype_override=p.get("dtype_override"), **overrides)
     except Exception as e:  # noqa: BLE001
         return {"status": "raise", "type": type(e).__name__, "msg": str(e)[:500],
                 "tb": traceback.format_exc()[-1500:]}
@@ -76,7 +76,7 @@ def export_job(p: Dict[str, Any]) -> Dict[str, Any]:
            "digest": __import__("hashlib").sha256(data).hexdigest()[:16],
            "double": bool(overrides.get("enable_double_precision", corpus.double(tp)))}
     if p.get("out_dir"):
-        path = os.path.join(p["out_dir"], p.get("name") or (_safe(p["pid"] + "|" + str(p.get("transform"))) + ".onnx"))
+        path = os.path.join(p["out_dir"], p.get("name") or (_safe(p["pid"] + "|" + str(p.get("transform")) + "|" + str(p.get("dtype_override"))) + ".onnx"))
         with open(path, "wb") as f:
             f.write(data)
         out["path"] = path
@@ -392,7 +392,7 @@ def _prepare(p: Dict[str, Any]) -> Dict[str, Any]:
     """Per-process cache of everything that does not depend on the input pattern."""
     import onnx
     from mc import corpus
-    key = p["pid"] + "|" + p["path"] + "|" + str(p.get("transform"))
+    key = p["pid"] + "|" + p["path"] + "|" + str(p.get("transform")) + "|" + str(p.get("dtype_override"))
     c = _PROG_CACHE.get(key)
     if c is not None:
         return c
@@ -412,6 +412,8 @@ def _prepare(p: Dict[str, Any]) -> Dict[str, Any]:
         c["skipped"] = f"build_error {type(e).__name__}"
         return c
     specs, meta, _tc = corpus.input_meta(tp)
+    if p.get("dtype_override"):
+        specs, meta = corpus.override_dtypes(specs, meta, p["dtype_override"])
     if p.get("transform"):
         from mc import transforms
         try:
